@@ -176,6 +176,7 @@ func init() {
 		"vpConcretizeString": vpConcretizeString,
 		"vpIsSymbolic":       vpIsSymbolic,
 		"vpCrashPoint":       vpCrashPoint,
+		"vpInjectiveDigest":  vpInjectiveDigest,
 	}
 }
 
@@ -522,4 +523,39 @@ func (e *Engine) isPure(fn *ssa.Function) bool {
 		}
 	})
 	return e.pureSet[fn]
+}
+
+// vpInjectiveDigest(stream, size) models a collision-free hash with fixed-size
+// output: it returns `size` fresh symbolic bytes D constrained, against every
+// digest taken earlier on this path, by  D == D'  <=>  stream == stream'.
+type digestRec struct {
+	stream []value
+	digest []*Term
+}
+
+func vpInjectiveDigest(fr *frame, args []value) (value, bool) {
+	r := fr.i.run
+	c := r.ctx
+	stream := append([]value(nil), args[0].([]value)...)
+	size := int(r.concInt(args[1], "digest-size"))
+	d := make([]*Term, size)
+	out := make([]value, size)
+	for i := range d {
+		d[i] = r.freshVar("digest", 8)
+		out[i] = sym{d[i], types.Uint8}
+	}
+	for _, prev := range r.digests {
+		if len(prev.digest) != size {
+			continue
+		}
+		deq := c.True
+		for i := range d {
+			deq = c.And(deq, c.Eq(d[i], prev.digest[i]))
+		}
+		seq := c.strEqTerm(mkString(stream), mkString(prev.stream))
+		r.assumption(mkBool(c.Eq(deq, seq)))
+	}
+	r.digests = append(r.digests, digestRec{stream, d})
+	r.stubs["vpInjectiveDigest (collision-free fixed-size hash: D==D' <=> stream==stream')"]++
+	return out, true
 }
